@@ -676,7 +676,10 @@ fn replay_mode(cases_path: &str, out_path: &str, from: usize) {
 }
 
 // ---------------------------------------------------------------------------------------------- random histories
-const NAMES: [&str; 30] = [
+const LONG_NAME: &str = "abcdefghijklmnopqrstuvwxyzabcdefghijklmnopqrstuvwxyzabcdefghijklmnopqrstuvwxyzabcdefghijklmnopqrstuvwxyzabcdefghijklmnopqrstuvwxyzabcdefghijklmnopqrstuvwxyzabcdefghijklmnopqrstuvwxyzabcdefghijklmnopqrstuv";
+// incl. unusual but legal bytes: a backslash, a trailing dot, a lone '@', names equal to markers, a 200-byte name
+const NAMES: [&str; 37] = [
+    "b\\c.bin", "k\\d", "x.", "e_", "@", "_x", LONG_NAME,
     "a", "a.b", "z", "m", "d", "e", "f.bin", "g.bin.lz", "h.cmp", "i.cms", "x", "xy", "k.bin", "q", "a b", ".h", "\u{e9}",
     "s_x", "s_f.bin", "e_x", "d_g.bin.lz", "f_h.cmp", "@E", "E", "S", "@S", "@NOE_SP", "@NOA_EN", "@J", "G",
 ];
